@@ -92,11 +92,11 @@ func init() {
 		ID:    "C05",
 		Level: "model_checking",
 		Rule: "every content list of length <=2 (thorough: <=3 over a reduced universe) over destinations x entry kinds x packager tags, prepared for each packager, " +
-			"plus every destination string up to length 6 (thorough 7) over {a,b,/,.}; run on files.PrepareForPackager and compared with the reference planner; " +
+			"plus every destination string up to length 6 (thorough 7) over {a,b,/,.}; run on files.PrepareForPackager and compared with the reference planner; part maporder: every list of <=2 entries over the reduced universe under every map iteration order (woven copy); " +
 			"a case is non-trivial when the list has >=1 relevant entry; distinct = distinct (outcome class, planned destination/kind/source set)",
 		Assumptions: []string{
 			"reference planner model/plan.go states the documented denotation",
-			"hash-map iteration order is explored by Go's per-range randomisation only in this check (each case runs once per order seen); the exhaustive map-order seam is part of C07's woven run",
+			"hash-map iteration order: part maporder runs the planner on the woven copy under every key order of every map range (all permutations for <=4 keys, else sorted/reversed/rotations) within 1 (thorough 2) deviating ranges",
 		},
 		Setup:  setupTree,
 		Decode: decodeInto[C05Case],
@@ -131,6 +131,21 @@ func init() {
 				for _, b := range u {
 					for _, p := range pk {
 						if !yield(C05Case{Part: "lists", Packager: p, List: []model.Entry{a, b}}) {
+							return
+						}
+					}
+				}
+			}
+			// map-order seam (woven copy): every list of <=2 entries over the reduced universe under
+			// every order of every map iteration of the planner
+			ru := c05Universe(true)
+			for _, p := range []string{"deb", "rpm"} {
+				for _, a := range ru {
+					if !yield(C05Case{Part: "maporder", Packager: p, List: []model.Entry{a}}) {
+						return
+					}
+					for _, b := range ru {
+						if !yield(C05Case{Part: "maporder", Packager: p, List: []model.Entry{a, b}}) {
 							return
 						}
 					}
@@ -176,6 +191,9 @@ func kindsOf(list []model.Entry) string {
 
 func checkC05(env *engine.Env, ci any) engine.Outcome {
 	c := ci.(C05Case)
+	if c.Part == "maporder" {
+		return checkC05MapOrder(env, c)
+	}
 	t := tree(env)
 	var out engine.Outcome
 	umask := umaskOf(0o022)
